@@ -218,7 +218,9 @@ def lua_sources(tier):
     for b in range(1, 256):
         if b in (10, 13):
             continue
-        com.append(b'--' + bytes([b]) + b'|\n')
+        # (the text after the byte would change, or not lex, if a reader took the byte for a line end: the apostrophe
+        # would open a string, the escape would be re-spelled)
+        com.append(b'--' + bytes([b]) + b' it\'s "\\65"|\n')
     out.append(('bytes-in-comment', b''.join(com)))
     st = []
     for b in range(1, 256):
@@ -261,7 +263,7 @@ def pair_sources(tier, sp):
              if a not in (10, 13, 0) and b not in (10, 13, 0)]
     out = []
     for i in range(0, len(pairs), 4096):
-        src = b''.join(b'--' + bytes([a, b]) + b'\n' for a, b in pairs[i:i + 4096])
+        src = b''.join(b'--' + bytes([a, b]) + b"'\n" for a, b in pairs[i:i + 4096])
         out.append((('pairs', i), src))
     return out
 
